@@ -2743,3 +2743,238 @@ Proof. vm_compute. reflexivity. Qed.
 Example ex_blob_fixed_all_images : crash_atomic_check o2 sb (tr_flush_blob true) = true.
 Proof. vm_compute. reflexivity. Qed.
 End ExBlob.
+
+(** * More examples *)
+Lemma names_nodup_apply s op s' : apply s op = Some s' -> NoDup (names s) -> NoDup (names s').
+Proof.
+  assert (Hadd : forall f l, NoDup l -> NoDup (add_name f l)).
+  { intros f l Hl. unfold add_name. destruct (existsb (fname_eqb f) l) eqn:E; [assumption|].
+    constructor; [|assumption]. intros Hin.
+    assert (existsb (fname_eqb f) l = true); [|congruence].
+    apply existsb_exists. exists f. split; [assumption|apply fname_eqb_refl]. }
+  intros Ha Hn. destruct op; simpl in Ha.
+  - inversion Ha; subst; assumption.
+  - destruct (negb (vdirs s (dir_of f))); [discriminate|]. destruct (vns s f).
+    + destruct excl; [discriminate|]. inversion Ha; subst; assumption.
+    + inversion Ha; subst; simpl. now apply Hadd.
+  - destruct (vns s f); [|discriminate]. inversion Ha; subst; assumption.
+  - destruct (vns s f); [|discriminate]. inversion Ha; subst; assumption.
+  - destruct (negb (vdirs s d)); [discriminate|]. inversion Ha; subst; assumption.
+  - destruct (negb (dname_eqb (dir_of src) (dir_of dst))); [discriminate|].
+    destruct (fname_eqb src dst); destruct (vns s src); try discriminate; inversion Ha; subst;
+      [assumption|simpl; now apply Hadd].
+  - destruct (vns s f); [|discriminate]. inversion Ha; subst; assumption.
+Qed.
+
+Lemma run_fs_names_nodup s tr s' : run_fs s tr = Some s' -> NoDup (names s) -> NoDup (names s').
+Proof.
+  revert s; induction tr as [|op tr IH]; intros s; cbn [run_fs].
+  - intros H; inversion H; subst; auto.
+  - destruct (apply s op) as [s1|] eqn:Ea; [|discriminate]. intros H Hn.
+    apply (IH s1 H). eapply names_nodup_apply; eauto.
+Qed.
+
+(** every enumerated image has an exact listing *)
+Lemma crash_images_names_ok s img :
+  wf s -> names_ok s -> NoDup (names s) -> In img (crash_images s) -> img_names_ok img.
+Proof.
+  intros Hw Hn Hnd Hin. pose proof (crash_images_sound s img Hw Hn Hin) as (_ & _ & He).
+  assert (Hnames : inames img = names s).
+  { unfold crash_images in Hin. apply in_flat_map in Hin as (dt & _ & Hin).
+    apply in_flat_map in Hin as (db & _ & Hin). apply in_map_iff in Hin as (ch & <- & _). reflexivity. }
+  split; [now rewrite Hnames|]. intros f Hf. rewrite Hnames.
+  destruct (in_dec fname_eq_dec f (names s)) as [H|H]; [assumption|]. exfalso.
+  destruct (Hn f H) as [H1 H2]. specialize (He f). destruct (iget img f); [|congruence].
+  simpl in He. destruct He as (j & [E|E] & _); congruence.
+Qed.
+
+Lemma summary_failed r : rsummary_eqb (summary r) SFailed = true -> r = Failed.
+Proof. destruct r; simpl; try discriminate. reflexivity. Qed.
+
+Module Ex2.
+Import Ex.
+
+Lemma s1_ok : disk_ok o1 s1 (Some 1).
+Proof.
+  destruct (run_fs_init_wf _ _ s1_run) as [Hw Hv].
+  apply disk_okb_sound; [assumption|assumption|vm_compute; reflexivity].
+Qed.
+
+(** the hypotheses of [trace_flush_protocol_ok] are satisfiable: the concrete flush *)
+Example ex_flush_by_trace_theorem : protocol_ok o1 s1 tr_flush = true.
+Proof.
+  unfold tr_flush.
+  apply (trace_flush_protocol_ok o1 s1 (Some 1)).
+  - exact s1_ok.
+  - vm_compute; reflexivity.
+  - vm_compute; reflexivity.
+  - vm_compute; reflexivity.
+  - split; [repeat constructor; intros []|].
+    intros w [<-|[]]. split; vm_compute; reflexivity.
+  - vm_compute; reflexivity.
+  - split; [discriminate|]. split; [reflexivity|]. split; [reflexivity|]. split; [discriminate|].
+    intros f Hf. vm_compute in Hf. simpl. intuition.
+  - split; [repeat constructor; intros []|].
+    intros f [<-|[]]. split; [vm_compute; discriminate|]. split; [discriminate|].
+    split; [discriminate|]. vm_compute. intuition discriminate.
+Qed.
+
+(** ** Finding (C16): [persist_version] failing AFTER the rename, then the retry *)
+(* the last op of the flush (fsync of the root, file.rs:136) fails with EIO:
+   [persist_version] returns Err, the in-memory version stays v1, the sealed memtable is
+   kept and flushed again later: new table 3, but AGAIN version id 2 *)
+Definition sn16 : fsstate :=
+  match run_fs s1 (firstn 16 tr_flush) with Some s => s | None => s1 end.
+Definition tr_retry : list fsop := trace_flush [mkW 3 [27] [28]] 2 [15;16] 3 103 [].
+Definition s_retry6 : fsstate :=
+  match run_fs sn16 (firstn 6 tr_retry) with Some s => s | None => sn16 end.
+
+Lemma s_retry6_run :
+  run_fs fs_init (tr_setup ++ firstn 16 tr_flush ++ firstn 6 tr_retry) = Some s_retry6.
+Proof. vm_compute. reflexivity. Qed.
+
+Theorem late_failure_retry_refuted :
+  (* before the retry every crash image is fine (v1 or v2) ... *)
+  forallb (fun i => negb (rsummary_eqb (summary (recover_dir o1 i)) SFailed)) (crash_images sn16) = true /\
+  (* ... the retry violates the protocol at its 6th op, [File::create(v2)] (persist.rs:20)
+     truncating the version file the volatile [current] already points to ... *)
+  protocol_ok o1 sn16 tr_retry = false /\
+  nth_error tr_retry 5 = Some (Create (VersionFile 2) false) /\
+  (* ... and a crash right after it can make recovery fail *)
+  exists img, is_crash_image s_retry6 img /\ recover_dir o1 img = Failed.
+Proof.
+  split; [vm_compute; reflexivity|]. split; [vm_compute; reflexivity|].
+  split; [reflexivity|].
+  assert (H : existsb (fun i => rsummary_eqb (summary (recover_dir o1 i)) SFailed)
+                      (crash_images s_retry6) = true) by (vm_compute; reflexivity).
+  apply existsb_exists in H as (img & Hin & Hf). exists img. split.
+  - destruct (run_fs_init_wf _ _ s_retry6_run) as [Hw _].
+    apply crash_images_sound; [assumption| |assumption].
+    eapply run_fs_names_ok; [exact s_retry6_run|apply names_ok_init].
+  - apply summary_failed. exact Hf.
+Qed.
+
+(** ** Leftovers (C20): a temp file of an interrupted [rewrite_atomic] is never removed *)
+Definition sn14 : fsstate :=
+  match run_fs s1 (firstn 14 tr_flush) with Some s => s | None => s1 end.
+
+Example ex_temp_file_leftover :
+  let img := volatile_image sn14 in
+  exists del, recover_dir o1 img = Recovered 1 [0; 1] [] del /\
+              del = [VersionFile 2; TableFile 2] /\
+              img_file (cleanup_image img del) (TempFile 2) = Some ([102], false).
+Proof. eexists. split; [vm_compute; reflexivity|]. split; vm_compute; reflexivity. Qed.
+
+(** ** crash, recover, clean up: consistent again (instance of [crash_preserves_consistency]) *)
+Example ex_crash_recover_consistent :
+  forall img, In img (crash_images sn14) ->
+    exists vid ts bs del s', recover_dir o1 img = Recovered vid ts bs del /\
+      run_fs (state_of_image img) (trace_recover_cleanup del) = Some s' /\ disk_ok o1 s' (Some vid).
+Proof.
+  intros img Hin.
+  assert (Hrun : run_fs fs_init (tr_setup ++ firstn 14 tr_flush) = Some sn14) by (vm_compute; reflexivity).
+  destruct (run_fs_init_wf _ _ Hrun) as [Hw _].
+  pose proof (run_fs_names_ok _ _ _ Hrun names_ok_init) as Hn.
+  assert (Hnd : NoDup (names sn14)) by (eapply run_fs_names_nodup; [exact Hrun|constructor]).
+  destruct (crash_preserves_consistency o1 s1 tr_flush ex_s1_consistent ex_flush_protocol_ok
+              14%nat sn14 img) as (vid & ts & bs & del & s' & H1 & H2 & H3 & _).
+  - vm_compute. reflexivity.
+  - apply crash_images_sound; assumption.
+  - apply crash_images_names_ok with (s := sn14); assumption.
+  - exists vid, ts, bs, del, s'. split; [exact H1|split; [exact H2|exact H3]].
+Qed.
+(** instances of the failure-atomicity and reclamation theorems *)
+Example ex_fail_atomic :
+  exists sf va, run_fs s1 tr_flush = Some sf /\ disk_ok o1 sf (Some va) /\
+  forall n sn, run_fs s1 (firstn n tr_flush) = Some sn ->
+    (summary (recover_result_of o1 sn) = summary (recover_result_of o1 s1) \/
+     summary (recover_result_of o1 sn) = summary (recover_result_of o1 sf)) /\
+    (published o1 sn 1 \/ published o1 sn va).
+Proof. exact (fail_atomic o1 s1 tr_flush 1 s1_ok ex_flush_protocol_ok). Qed.
+
+Example ex_reclaim :
+  forall f, In f (inames (volatile_image sn14)) ->
+    img_file (cleanup_image (volatile_image sn14) [VersionFile 2; TableFile 2]) f <> None ->
+    f = Current \/ f = VersionFile 1 \/ (exists id, f = TableFile id /\ In id [0; 1]) \/
+    (exists id, f = BlobFile id /\ In id []) \/ (exists k, f = TempFile k) \/ (exists k, f = Other k).
+Proof.
+  apply (reclaim_exact o1 (volatile_image sn14) 1 [0; 1] [] [VersionFile 2; TableFile 2]).
+  vm_compute. reflexivity.
+Qed.
+End Ex2.
+
+(** * Replays of the crate's unit tests *)
+Module UnitTests.
+Definition final (s : fsstate) (tr : list fsop) : fsstate :=
+  match run_fs s tr with Some s' => s' | None => s end.
+
+(** version/persist.rs:63 [version_persist_replaces_orphaned_file]: a leftover partial
+    [v0] (token 99) is replaced by [persist_version], and [current] exists afterwards *)
+Example test_version_persist_replaces_orphaned_file :
+  let s0 := final fs_init [Create (VersionFile 0) false; Write (VersionFile 0) 99] in
+  let sf := final s0 (trace_persist 0 [10] 0 100) in
+  iget (volatile_image s0) (VersionFile 0) = Some ([99], false) /\
+  iget (volatile_image sf) (VersionFile 0) = Some ([10], false) /\
+  iget (volatile_image sf) Current = Some ([100], false) /\
+  iget (durable_image sf) Current = Some ([100], false).
+Proof. vm_compute. auto. Qed.
+
+(** file.rs:163 [atomic_rewrite] / file.rs:181 [persist_temp_file_replaces_existing]:
+    the old content (token 1) is replaced by the new one (token 2) *)
+Example test_atomic_rewrite :
+  let s0 := final fs_init [Create Current false; Write Current 1] in
+  let sf := final s0 [Create (TempFile 0) true; Write (TempFile 0) 2; FsyncFile (TempFile 0);
+                      Rename (TempFile 0) Current; FsyncFile Current; FsyncDir Root] in
+  iget (volatile_image s0) Current = Some ([1], false) /\
+  iget (volatile_image sf) Current = Some ([2], false) /\
+  iget (durable_image sf) Current = Some ([2], false) /\
+  iget (volatile_image sf) (TempFile 0) = None.
+Proof. vm_compute. auto. Qed.
+
+(** vlog/mod.rs:144 [vlog_recovery_missing_blob_file]: the folder exists, the listed blob
+    file 0 does not: Unrecoverable *)
+Definition img_missing_blob (blobs_dir : bool) : image :=
+  mkImage (fun d => match d with Blobs => blobs_dir | _ => true end)
+          (fun f => match f with
+                    | Current => Some ([101], false)
+                    | VersionFile 1 => Some ([11], false)
+                    | TableFile 0 => Some ([20; 21], false)
+                    | _ => None end)
+          [Current; VersionFile 1; TableFile 0].
+
+Example test_vlog_recovery_missing_blob_file :
+  recover_dir ExBlob.o2 (img_missing_blob true) = Failed.
+Proof. vm_compute. reflexivity. Qed.
+
+(** SURPRISE (vlog/mod.rs:31-33): if the [blobs/] folder itself is missing,
+    [recover_blob_files] returns no blob files and NO error although the version lists
+    blob file 0: the tree opens with its blob files silently dropped. *)
+Example ex_missing_blobs_folder_silently_empty :
+  recover_dir ExBlob.o2 (img_missing_blob false) = Recovered 1 [0] [] [].
+Proof. vm_compute. reflexivity. Qed.
+End UnitTests.
+
+(** * Assumptions *)
+Print Assumptions crash_atomic_generic.
+Print Assumptions crash_atomic_from.
+Print Assumptions fail_atomic.
+Print Assumptions crash_preserves_consistency.
+Print Assumptions crash_images_sound.
+Print Assumptions crash_images_complete.
+Print Assumptions crash_images_cover.
+Print Assumptions reclaim_exact.
+Print Assumptions reclaim_keeps.
+Print Assumptions publish_shape_ok.
+Print Assumptions publish_shape_fresh.
+Print Assumptions trace_flush_protocol_ok.
+Print Assumptions trace_flush_blob_fixed_protocol_ok.
+Print Assumptions trace_merge_protocol_ok.
+Print Assumptions trace_merge_blob_fixed_protocol_ok.
+Print Assumptions trace_move_or_drop_protocol_ok.
+Print Assumptions trace_clear_protocol_ok.
+Print Assumptions trace_ingest_protocol_ok.
+Print Assumptions trace_maintenance_protocol_ok.
+Print Assumptions trace_recover_cleanup_protocol_ok.
+Print Assumptions trace_create_new_protocol_ok.
+Print Assumptions ExBlob.trace_flush_blob_refuted.
+Print Assumptions Ex2.late_failure_retry_refuted.
